@@ -393,7 +393,10 @@ def leg_c_long_arrays(ctx, rng, n):
             else:
                 ch = gen.compressed_axes_choices(len(shp))
                 ca = ch[int(rng.integers(len(ch)))]
-                x = sparse.GCXS.from_coo(base, compressed_axes=ca, idx_dtype=idt) if ca is not None else sparse.GCXS.from_coo(base, idx_dtype=idt)
+                try:
+                    x = sparse.GCXS.from_coo(base, compressed_axes=ca, idx_dtype=idt) if ca is not None else sparse.GCXS.from_coo(base, idx_dtype=idt)
+                except ValueError:  # the requested narrow type cannot hold this array's compressed shape / nnz: refused cleanly (C15's subject)
+                    continue
             ax = int(rng.integers(len(shp)))
             m = int(rng.choice([127, 128, 130, 255, 256, 260, 300]))
             arr = rng.integers(-shp[ax], shp[ax], size=m)
